@@ -477,4 +477,189 @@ theorem acknowledged_is_stored_partial {s s' : S} (h : step s .wrOk = some s') {
   · simp at h
 
 
+
+
+/-! ### the QoS 0 lane with the session_expired reports (C13: the report comes ahead of the messages of the new session) -/
+def storedL (s : S) : List Nat := s.stored.filterMap fun x => if x.1 = 0 then some x.2.2 else if x.1 = 9 then some 0 else none
+
+structure LaneInv (hist : List Ev) (s : S) : Prop where
+  flag : (hist.foldl laneStep (false, [])).1 = s.subs
+  sub : (laneDelivered hist ++ storedL s).Sublist (hist.foldl laneStep (false, [])).2
+
+theorem laneDelivered_snoc (h : List Ev) (e : Ev) :
+    laneDelivered (h ++ [e]) = laneDelivered h ++ (match e with | .deliver q _ m => if q = 0 then [m] else if q = 9 then [0] else [] | _ => []) := by
+  simp only [laneDelivered, List.filterMap_append]
+  cases e <;> simp
+  rename_i q p m
+  by_cases h0 : q = 0
+  · simp [h0]
+  · by_cases h9 : q = 9 <;> simp [h0, h9]
+
+theorem storedL_append (s : S) (x : Nat × Nat × Nat) :
+    (List.filterMap (fun x : Nat × Nat × Nat => if x.1 = 0 then some x.2.2 else if x.1 = 9 then some 0 else none) (s.stored ++ [x])) =
+      storedL s ++ (if x.1 = 0 then [x.2.2] else if x.1 = 9 then [0] else []) := by
+  simp only [storedL, List.filterMap_append, List.filterMap_cons, List.filterMap_nil]
+  by_cases h0 : x.1 = 0
+  · simp [h0]
+  · by_cases h9 : x.1 = 9 <;> simp [h0, h9]
+
+theorem waitRel_L (s : S) (pid msg : Nat) : storedL (waitRel s pid msg) = storedL s ∧ (waitRel s pid msg).subs = s.subs := by
+  unfold waitRel; split <;> exact ⟨rfl, rfl⟩
+
+theorem finishOk_L (s : S) (it : Item) : storedL (finishOk s it) = storedL s ∧ (finishOk s it).subs = s.subs := by
+  cases it with
+  | ackI p m => exact ⟨by show List.filterMap _ (s.stored ++ [(1, p, m)]) = _; rw [storedL_append]; simp, rfl⟩
+  | recI p m => exact waitRel_L s p m
+  | compI p m => exact ⟨by show List.filterMap _ (s.stored ++ [(2, p, m)]) = _; rw [storedL_append]; simp, rfl⟩
+
+theorem finishFail_L (s : S) (it : Item) : storedL (finishFail s it) = storedL s ∧ (finishFail s it).subs = s.subs := by
+  cases it with
+  | ackI p m => exact ⟨rfl, rfl⟩
+  | recI p m => exact ⟨rfl, rfl⟩
+  | compI p m => exact waitRel_L s p m
+
+theorem drain_L (f : S → Item → S) (hf : ∀ s it, storedL (f s it) = storedL s ∧ (f s it).subs = s.subs) :
+    ∀ (items : List Item) (t : S), storedL (drain f t items) = storedL t ∧ (drain f t items).subs = t.subs := by
+  intro items; induction items with
+  | nil => intro t; exact ⟨rfl, rfl⟩
+  | cons it rest ih => intro t; simp only [drain]; have := ih (f t it); have h2 := hf t it; exact ⟨this.1.trans h2.1, this.2.trans h2.2⟩
+
+theorem requeue_L (s : S) : storedL (requeue s) = storedL s ∧ (requeue s).subs = s.subs := by
+  unfold requeue
+  have := drain_L (fun s it => finishFail s it) finishFail_L (s.compQ.map fun x => Item.compI x.1 x.2) { s with ackQ := [], recQ := [], compQ := [] }
+  exact ⟨this.1, this.2⟩
+
+theorem lane_keep {hist : List Ev} {s s' : S} {e : Ev} (I : LaneInv hist s) (h1 : storedL s' = storedL s) (h2 : s'.subs = s.subs)
+    (he : ∀ st, laneStep st e = st) (hd : laneDelivered (hist ++ [e]) = laneDelivered hist) : LaneInv (hist ++ [e]) s' := by
+  refine ⟨?_, ?_⟩
+  · simp only [List.foldl_append, List.foldl_cons, List.foldl_nil, he, h2]; exact I.flag
+  · simp only [List.foldl_append, List.foldl_cons, List.foldl_nil, he, hd, h1]; exact I.sub
+
+theorem lane_step (hist : List Ev) (s : S) (e : Ev) (s' : S) (I : LaneInv hist s) (h : step s e = some s') : LaneInv (hist ++ [e]) s' := by
+  cases e with
+  | connUp sp =>
+    simp only [step] at h; split at h
+    · rename_i hsp
+      simp only [Option.some.injEq] at h; subst h
+      have := requeue_L s
+      refine ⟨?_, ?_⟩
+      · simp only [List.foldl_append, List.foldl_cons, List.foldl_nil, laneStep, hsp, if_true, this.2]; exact I.flag
+      · rw [laneDelivered_snoc]; simp only [List.foldl_append, List.foldl_cons, List.foldl_nil, laneStep, hsp, if_true, this.1, List.append_nil]
+        exact I.sub
+    · rename_i hsp
+      simp only [Option.some.injEq] at h; subst h
+      have hq := requeue_L { s with waiter := fun _ => none, subs := false, stored := if s.subs then s.stored ++ [(9, 0, 0)] else s.stored }
+      have hf := I.flag
+      refine ⟨?_, ?_⟩
+      · simp only [List.foldl_append, List.foldl_cons, List.foldl_nil, laneStep, hsp, hq.2]; simp
+      · rw [laneDelivered_snoc]; simp only [List.foldl_append, List.foldl_cons, List.foldl_nil, laneStep, hsp, hq.1, List.append_nil]
+        simp only [Bool.false_eq_true, if_false]
+        rw [hf]
+        cases hs : s.subs
+        · simp only [storedL, hs, Bool.false_eq_true, if_false]; exact I.sub
+        · simp only [hs, if_true]
+          have : storedL { s with waiter := fun _ => none, subs := false, stored := s.stored ++ [(9, 0, 0)] } = storedL s ++ [0] := by
+            show List.filterMap _ (s.stored ++ [(9, 0, 0)]) = _; rw [storedL_append]; simp
+          rw [this]
+          have := List.Sublist.append I.sub (List.Sublist.refl [0])
+          simpa [List.append_assoc] using this
+  | rxPub qos pid msg =>
+    simp only [step] at h
+    split at h
+    · rename_i hq; subst hq
+      simp only [Option.some.injEq] at h; subst h
+      refine ⟨?_, ?_⟩
+      · simp only [List.foldl_append, List.foldl_cons, List.foldl_nil, laneStep, if_true]; exact I.flag
+      · rw [laneDelivered_snoc]; simp only [List.foldl_append, List.foldl_cons, List.foldl_nil, laneStep, if_true, List.append_nil]
+        have : storedL { s with stored := s.stored ++ [(0, pid, msg)] } = storedL s ++ [msg] := by
+          show List.filterMap _ (s.stored ++ [(0, pid, msg)]) = _; rw [storedL_append]; simp
+        rw [this]
+        have := List.Sublist.append I.sub (List.Sublist.refl [msg])
+        simpa [List.append_assoc] using this
+    · rename_i hq0
+      have hl : ∀ st, laneStep st (Ev.rxPub qos pid msg) = st := by intro st; simp [laneStep, hq0]
+      split at h
+      · simp only [Option.some.injEq] at h; subst h
+        exact lane_keep I rfl rfl hl (by rw [laneDelivered_snoc]; simp)
+      · split at h
+        · simp only [Option.some.injEq] at h; subst h
+          exact lane_keep I rfl rfl hl (by rw [laneDelivered_snoc]; simp)
+        · simp at h
+  | rxRel pid good =>
+    simp only [step] at h
+    split at h
+    · simp only [Option.some.injEq] at h; subst h; exact lane_keep I rfl rfl (fun _ => rfl) (by rw [laneDelivered_snoc]; simp)
+    · split at h
+      · simp only [Option.some.injEq] at h; subst h; exact lane_keep I rfl rfl (fun _ => rfl) (by rw [laneDelivered_snoc]; simp)
+      · simp only [Option.some.injEq] at h; subst h; exact lane_keep I rfl rfl (fun _ => rfl) (by rw [laneDelivered_snoc]; simp)
+  | wr =>
+    simp only [step] at h; split at h
+    · simp at h
+    · simp only [Option.some.injEq] at h; subst h; exact lane_keep I rfl rfl (fun _ => rfl) (by rw [laneDelivered_snoc]; simp)
+  | pk p0 =>
+    simp only [step] at h; split at h
+    · cases p0 with
+      | puback pid => simp only [stepPk, Option.map_eq_some_iff] at h; obtain ⟨⟨m, rest⟩, _, rfl⟩ := h; exact lane_keep I rfl rfl (fun _ => rfl) (by rw [laneDelivered_snoc]; simp)
+      | pubrec pid => simp only [stepPk, Option.map_eq_some_iff] at h; obtain ⟨⟨m, rest⟩, _, rfl⟩ := h; exact lane_keep I rfl rfl (fun _ => rfl) (by rw [laneDelivered_snoc]; simp)
+      | pubcomp pid => simp only [stepPk, Option.map_eq_some_iff] at h; obtain ⟨⟨m, rest⟩, _, rfl⟩ := h; exact lane_keep I rfl rfl (fun _ => rfl) (by rw [laneDelivered_snoc]; simp)
+      | other => simp only [stepPk, Option.some.injEq] at h; subst h; exact lane_keep I rfl rfl (fun _ => rfl) (by rw [laneDelivered_snoc]; simp)
+    · simp at h
+  | wrOk =>
+    simp only [step] at h; split at h
+    · simp only [Option.some.injEq] at h; subst h
+      have := drain_L finishOk finishOk_L s.batch { s with writing := false, batch := [] }
+      exact lane_keep I this.1 this.2 (fun _ => rfl) (by rw [laneDelivered_snoc]; simp)
+    · simp at h
+  | wrFail =>
+    simp only [step] at h; split at h
+    · simp only [Option.some.injEq] at h; subst h
+      have := drain_L finishFail finishFail_L s.batch { s with writing := false, batch := [] }
+      exact lane_keep I this.1 this.2 (fun _ => rfl) (by rw [laneDelivered_snoc]; simp)
+    · simp at h
+  | deliver qos pid msg =>
+    simp only [step] at h
+    split at h
+    · rename_i x rest hst
+      split at h
+      · rename_i hx; subst hx
+        simp only [Option.some.injEq] at h; subst h
+        refine ⟨?_, ?_⟩
+        · simp only [List.foldl_append, List.foldl_cons, List.foldl_nil, laneStep]; exact I.flag
+        · rw [laneDelivered_snoc]; simp only [List.foldl_append, List.foldl_cons, List.foldl_nil, laneStep]
+          have := I.sub
+          simp only [storedL, hst, List.filterMap_cons] at this ⊢
+          by_cases h0 : qos = 0
+          · subst h0; simpa [List.append_assoc] using this
+          · by_cases h9 : qos = 9
+            · subst h9; simpa [List.append_assoc] using this
+            · simpa [h0, h9] using this
+      · simp at h
+    · simp at h
+  | reset =>
+    simp only [step, Option.some.injEq] at h; subst h
+    refine ⟨?_, ?_⟩
+    · simp only [List.foldl_append, List.foldl_cons, List.foldl_nil, laneStep]; exact I.flag
+    · rw [laneDelivered_snoc]; simp only [List.foldl_append, List.foldl_cons, List.foldl_nil, laneStep, storedL, List.filterMap_nil, List.append_nil]
+      exact List.Sublist.trans (by simp) I.sub
+  | subOk =>
+    simp only [step, Option.some.injEq] at h; subst h
+    refine ⟨?_, ?_⟩
+    · simp only [List.foldl_append, List.foldl_cons, List.foldl_nil, laneStep]
+    · rw [laneDelivered_snoc]; simp only [List.foldl_append, List.foldl_cons, List.foldl_nil, laneStep, List.append_nil]
+      exact I.sub
+
+theorem lane_reach {tr : List Ev} {s : S} (h : run init tr = some s) : LaneInv tr s :=
+  inv_reach LaneInv ⟨rfl, by simp [laneDelivered, storedL, init]⟩ lane_step tr s h
+
+/-- **C13 / C04 on accepted event lists (order)**: after every prefix, what the application has been handed on the QoS 0 lane — QoS 0 messages and
+`session_expired` reports (written 0) — is, in this order, a subsequence of what became due on it: a report that became due before a QoS 0
+message arrived is never handed over after that message -/
+theorem lane_in_order {tr : List Ev} (hacc : accepts tr = true) (pre post : List Ev) (hsplit : tr = pre ++ post) :
+    (laneDelivered pre).Sublist (laneDue pre) := by
+  obtain ⟨s, hr⟩ := (accepts_iff _).1 hacc
+  rw [hsplit] at hr
+  obtain ⟨s1, hr1, _⟩ := run_prefix hr
+  exact List.Sublist.trans (List.sublist_append_left _ _) (lane_reach hr1).sub
+
+
 end Mqtt5V.Proofs.TraceIn
